@@ -13,7 +13,12 @@ Record case := mkcase { c_cfg : word; c_ops : list word; c_obs : list word }.
    PropFail cl i   : clause cl of the property is false on the implementation's
                      own trace (i = position/aux information)
    BadCase         : the case does not decode (harness bug, never a verdict on /repo) *)
-Inductive verdict := Agree | Disagree (i : Z) | PropFail (clause : Z) (i : Z) | BadCase.
+Inductive verdict := Agree | Disagree (i : Z) | PropFail (clause : Z) (i : Z) | BadCase
+  | Many (fails : list (Z * Z)) (dis : option Z).
+(* Many fs d : several things are wrong with one case: every false clause (first occurrence
+   of each clause id, with its aux) and the first differing observation, if any.  Reporting
+   all of them keeps a known finding's clause from hiding another clause's failure or a
+   correspondence break in the same case. *)
 
 Fixpoint word_eqb (a b : word) : bool :=
   match a, b with
@@ -45,19 +50,34 @@ Fixpoint first_fail (l : list (Z * Z * bool)) : option (Z * Z) :=
   | (c, i, ok) :: l' => if ok then first_fail l' else Some (c, i)
   end.
 
-(* Standard verdict: property on the implementation trace first (a PropFail is
-   the stronger statement), then correspondence. *)
+(* every false clause, first occurrence per clause id *)
+Fixpoint seen_clause (c : Z) (l : list (Z * Z)) : bool :=
+  match l with
+  | [] => false
+  | (c', _) :: r => Z.eqb c c' || seen_clause c r
+  end.
+Fixpoint all_fails_acc (acc : list (Z * Z)) (l : list (Z * Z * bool)) : list (Z * Z) :=
+  match l with
+  | [] => rev acc
+  | (c, i, ok) :: r => if ok then all_fails_acc acc r
+                       else if seen_clause c acc then all_fails_acc acc r
+                       else all_fails_acc ((c, i) :: acc) r
+  end.
+Definition all_fails := all_fails_acc [].
+
+(* Standard verdict: the property on the implementation trace (every false clause) and
+   correspondence (first differing observation), both reported. *)
 Definition decide (model_obs : option (list word)) (impl_obs : list word)
            (clauses : list (Z * Z * bool)) : verdict :=
-  match first_fail clauses with
-  | Some (c, i) => PropFail c i
-  | None =>
-    match model_obs with
-    | None => BadCase
-    | Some m => match first_diff m impl_obs with
-                | None => Agree
-                | Some i => Disagree i
-                end
+  let fs := all_fails clauses in
+  match model_obs with
+  | None => match fs with [] => BadCase | [(c, i)] => PropFail c i | _ => Many fs None end
+  | Some m =>
+    match fs, first_diff m impl_obs with
+    | [], None => Agree
+    | [], Some i => Disagree i
+    | [(c, i)], None => PropFail c i
+    | _, d => Many fs d
     end
   end.
 
@@ -69,6 +89,9 @@ Fixpoint summarize_from (i : Z) (vs : list verdict) : list (Z * Z * Z * Z) :=
   | Disagree k :: r => (i, 1, k, 0) :: summarize_from (i + 1) r
   | PropFail c k :: r => (i, 2, c, k) :: summarize_from (i + 1) r
   | BadCase :: r => (i, 3, 0, 0) :: summarize_from (i + 1) r
+  | Many fs d :: r =>
+    map (fun f => (i, 2, fst f, snd f)) fs ++
+    match d with Some k => [(i, 1, k, 0)] | None => [] end ++ summarize_from (i + 1) r
   end.
 Definition summarize (vs : list verdict) : Z * list (Z * Z * Z * Z) :=
   (Z.of_nat (length vs), summarize_from 0 vs).
